@@ -64,6 +64,10 @@ func init() {
 			guard(r, "MUSTPASS", func() { ruleMUSTPASS(w, r) })
 			guard(r, "ROWCOVER", func() { ruleROWCOVER(w, r) })
 			guard(r, "FILTER", func() { ruleFILTER(w, r) })
+			guard(r, "DEEPEQ", func() { ruleDEEPEQ(w, r, "par2") })
+			guard(r, "FMTCONST", func() { ruleFMTCONST(w, r) })
+			guard(r, "EXTCUT", func() { ruleEXTCUT(w, r) })
+			guard(r, "GETKEYS", func() { ruleGETKEYS(w, r) })
 		},
 	})
 
@@ -79,6 +83,7 @@ func init() {
 			guard(r, "SKIPOK", func() { ruleSKIPOK(w, r) })
 			guard(r, "CREATE-PATHS", func() { ruleCREATEPATHS(w, r) })
 			guard(r, "NAMEFID", func() { ruleNAMEFID(w, r) })
+			guard(r, "PAIR", func() { pairPar1UTF16(w, r) })
 		},
 	})
 
@@ -96,6 +101,9 @@ func init() {
 			guard(r, "CONST", func() { r.rule("CONST", ruleCONSTText); constHashOrders(w, r) })
 			guard(r, "MUSTPASS", func() { ruleMUSTPASS(w, r) })
 			guard(r, "GLOBCALL", func() { ruleGLOBCALL(w, r) })
+			guard(r, "GLOB", func() { ruleGLOB(w, r, globOpts{literal: true, complete: true}) })
+			guard(r, "GETKEYS", func() { ruleGETKEYS(w, r) })
+			guard(r, "EXTCUT", func() { ruleEXTCUT(w, r) })
 			guard(r, "DEADST", func() { ruleDEADST(w, r) })
 			guard(r, "ACCUM", func() { ruleACCUM(w, r) })
 			guard(r, "ENTRY-SEQ", func() { ruleENTRYSEQ(w, r, "par2") })
@@ -117,6 +125,8 @@ func init() {
 			guard(r, "MKLEN", func() { ruleMKLEN(w, r) })
 			guard(r, "ENTRY-SEQ", func() { ruleENTRYSEQ(w, r, "par1") })
 			guard(r, "EFF", func() { ruleEFF(w, r, effOpts{e1: true, impl: true, onlyPkg: "par1"}) })
+			guard(r, "EXTCUT", func() { ruleEXTCUT(w, r) })
+			guard(r, "NAMESYM", func() { ruleNAMESYM(w, r, "par1") })
 		},
 	})
 
@@ -128,6 +138,18 @@ func init() {
 			guard(r, "CONST", func() { ruleCONST(w, r, constOpts{field: true, generators: true, par2: true}) })
 			guard(r, "TABLEFILL", func() { ruleTABLEFILL(w, r, 2) })
 			guard(r, "PAIR", func() { rulePAIRpar2(w, r, pairOpts{encoder: true, slicing: true}) })
+			guard(r, "EFF", func() { ruleEFF(w, r, effOpts{e1: true, impl: true, onlyPkg: "par2"}) })
+			guard(r, "FMTCONST", func() { ruleFMTCONST(w, r) })
+			guard(r, "TABLEFILL", func() {
+				if w.GOARCH == "amd64" {
+					ruleTABLEFILL(w, r, 2, "mulTable", "mulTable64")
+				} else {
+					ruleTABLEFILL(w, r, 1, "mulTable")
+				}
+			})
+			if w.GOARCH == "amd64" {
+				guard(r, "ASM", func() { pres := ruleASM(w, r); ruleKGUARD(w, r, pres) })
+			}
 			guard(r, "RACE", func() { ruleRACE(w, r) })
 		},
 	})
@@ -145,6 +167,8 @@ func init() {
 			guard(r, "DEEPEQ", func() { ruleDEEPEQ(w, r, "par2") })
 			guard(r, "CONST", func() { constPacketLenBound(w, r) })
 			guard(r, "GLOBCALL", func() { ruleGLOBCALL(w, r) })
+			guard(r, "CONST", func() { r.rule("CONST", ruleCONSTText); constByteOrder(w, r, "par2") })
+			guard(r, "EXTCUT", func() { ruleEXTCUT(w, r) })
 			guard(r, "ORDERINDEP", func() { ruleORDERINDEP(w, r) })
 			guard(r, "FILTER", func() { ruleFILTER(w, r) })
 		},
@@ -160,6 +184,16 @@ func init() {
 			guard(r, "ROWCOVER", func() { ruleROWCOVER(w, r) })
 			guard(r, "ELIM", func() { ruleELIM(w, r) })
 			guard(r, "SOLVE", func() { ruleSOLVE(w, r) })
+			guard(r, "TABLEFILL", func() {
+				if w.GOARCH == "amd64" {
+					ruleTABLEFILL(w, r, 2, "mulTable", "mulTable64")
+				} else {
+					ruleTABLEFILL(w, r, 1, "mulTable")
+				}
+			})
+			if w.GOARCH == "amd64" {
+				guard(r, "ASM", func() { pres := ruleASM(w, r); ruleKGUARD(w, r, pres) })
+			}
 			guard(r, "FILTER", func() { ruleFILTER(w, r) })
 			guard(r, "PAIR", func() { rulePAIRERRTYPE(w, r) })
 			guard(r, "ERRFLOW", func() { ruleERRFLOW(w, r, errflowScope{fnNames: coderChain, tag: " on the coder chain"}, 4) })
@@ -216,6 +250,8 @@ func init() {
 			guard(r, "GATE", func() { ruleGATE(w, r, gateOpts{par1: true, probe: true}) })
 			guard(r, "IDXDOM", func() { ruleIDXDOM(w, r) })
 			guard(r, "IMMUT", func() { ruleIMMUT(w, r, "par1") })
+			guard(r, "EXTCUT", func() { ruleEXTCUT(w, r) })
+			guard(r, "NAMESYM", func() { ruleNAMESYM(w, r, "par1") })
 			guard(r, "RANGE", func() { ruleRANGE(w, r, []string{"par1"}, 0) })
 		},
 	})
@@ -275,6 +311,7 @@ func init() {
 			guard(r, "EFF", func() { ruleEFF(w, r, effOpts{e1: true, e3: true, impl: true}) })
 			guard(r, "DEADST", func() { ruleDEADST(w, r) })
 			guard(r, "POSTWRITE", func() { rulePOSTWRITE(w, r) })
+			guard(r, "GETKEYS", func() { ruleGETKEYS(w, r) })
 			guard(r, "SKIPOK", func() { ruleSKIPOK(w, r) })
 			guard(r, "WGUARD", func() { ruleWGUARD(w, r, false) })
 			guard(r, "REPORT", func() { ruleREPORT(w, r) })
@@ -306,6 +343,7 @@ func init() {
 			guard(r, "DETERM", func() { ruleDETERM(w, r) })
 			guard(r, "CREATE-PATHS", func() { ruleCREATEPATHS(w, r) })
 			guard(r, "ANCHOR", func() { ruleANCHOR(w, r, "Encoder)", 3) })
+			guard(r, "FMTCONST", func() { ruleFMTCONST(w, r) })
 			guard(r, "EFF", func() { ruleEFF(w, r, effOpts{e1: true, impl: true}) })
 			guard(r, "RACE", func() { ruleRACE(w, r) })
 		},
